@@ -28,7 +28,7 @@ _CODEC_NOTE = ("Trusted: Python integer semantics for + - * // % << >> & | as tr
 CHECKS = {
     "C02": (
         "float interval analysis with branch refinement and attained-bound flags (custom interprocedural ast interpreter) + memo-key analysis on the heap/effect model",
-        "Only the clause 'cell_to_lonlat(c) has longitude in [-180, 180]' is decided: the returned tuple of a5.core.cell.cell_to_lonlat is evaluated over float intervals, inlining DodecahedronProjection.inverse, to_spherical, to_lonlat and rad_to_deg through the resolved call graph; theta is the result of math.atan2 (range [-pi, pi] by the library contract), comparisons with constants refine the interval on both branches, loops that shift by 360 are unrolled while feasible; record fields (origins[k].axis) are the hull of what the constructor calls in the repository give them; a bound counts as attained only if it is a constant, a full library range on unconstrained arguments or a record value carried through monotone arithmetic -- exceeding [-180, 180] through an attained bound is a violation, otherwise undecided. C02.2: no memo / cache / slot on the call trees of cell_to_lonlat and lonlat_to_cell has a definite key defect (incomplete or non-injective key, inexact hit test, read and written under different keys, decorator store shared by several functions), i.e. the two conversions answer from their arguments alone. The latitude range, 'strictly inside its own ring' and 'maps back to the same cell' are numeric and NOT decided (DESIGN.md section 4).",
+        "Only the clause 'cell_to_lonlat(c) has longitude in [-180, 180]' is decided: the returned tuple of a5.core.cell.cell_to_lonlat is evaluated over float intervals, inlining DodecahedronProjection.inverse, to_spherical, to_lonlat and rad_to_deg through the resolved call graph; theta is the result of math.atan2 (range [-pi, pi] by the library contract), comparisons with constants refine the interval on both branches, loops that shift by 360 are unrolled while feasible; record fields (origins[k].axis) are the hull of what the constructor calls in the repository give them; a bound counts as attained only if it is a constant, a full library range on unconstrained arguments or a record value carried through monotone arithmetic -- exceeding [-180, 180] through an attained bound is a violation, otherwise undecided. C02.2: no memo / cache / slot on the call trees of cell_to_lonlat and lonlat_to_cell has a definite key defect (incomplete or non-injective key, inexact hit test, read and written under different keys, decorator store shared by several functions), i.e. the two conversions answer from their arguments alone. The latitude range, 'strictly inside its own ring' and 'maps back to the same cell' are numeric and NOT decided (DESIGN.md section 4). math.fmod with a positive constant modulus is the identity inside (-y, y) and the hull of (-y, y) otherwise.",
         "Trusted: math.atan2 range; IEEE doubles (end points outward rounded, 1e-9 degree tolerance on the inclusion). Assumes atan2 attains its range over the globe (cells tile the sphere), so an out-of-range end point is attained.",
         "DESIGN.md section 3, C02",
     ),
@@ -88,7 +88,7 @@ CHECKS = {
     ),
     "C20": (
         "constant propagation + size summaries compared on the finite resolution lattice",
-        "get_num_cells / get_num_children / cell_area are evaluated by the abstract interpreter (constant propagation) for every resolution and resolution pair and compared with the size summary of the code that enumerates cells (length of the summarised cell_to_children family), the expansion of the world cell, the product rule and strict monotonicity; cell_area's return expression is decomposed structurally (one module constant = 4*pi*R*R over get_num_cells(r)), R is compared with the WGS84 authalic radius derived in the checker, and exact representability of the counts bounds the rounding.",
+        "get_num_cells / get_num_children / cell_area are evaluated by the abstract interpreter (constant propagation) for every resolution and resolution pair and compared with the size summary of the code that enumerates cells (length of the summarised cell_to_children family), the expansion of the world cell, the product rule and strict monotonicity; cell_area's return expression is decomposed structurally (one module constant = 4*pi*R*R over get_num_cells(r)), R is compared with the WGS84 authalic radius derived in the checker, and exact representability of the counts bounds the rounding. C20.6 ('distinct' cells): per resolution pair, every listed child is a cell of the target level and no child is listed twice for one parent (the C06.1/C06.2 analysis without the cell_to_parent obligations), and a collision witness is searched for children of different parents (the child id form at two valuations with the same value); no witness proves nothing more. An exported name of a5/__init__.py that is defined there instead of being imported from a5.core makes the property's obligations about the exported function undecided (rule <id>.0; same for every claimed property).",
         _CODEC_NOTE + " IEEE-754 doubles for the folded constants; WGS84 a, 1/f typed into the checker.",
         "DESIGN.md section 3, C20",
     ),
